@@ -58,6 +58,7 @@ def run():
         # and queried without any further update
         for k, s in enumerate(scens):
             s['via_solver'] = bool(k % 2)
+            s['implicit_ctx'] = bool((k // 2) % 2)
     nvia = sum(1 for s in scens if s.get('via_solver'))
     by_id = {s['id']: s for s in scens}
     outs = nc.run_driver(chk, scens, cfgs, reorder=True, tag='c17')
